@@ -29,4 +29,4 @@ Definition ob_empty : obuf := {| ob_rev := []; ob_len := 0 |}.
 Definition ob_push (site max : N) (o : obuf) (b : N) : outcome obuf :=
   if ob_len o <? max then Ok {| ob_rev := b :: ob_rev o; ob_len := ob_len o + 1 |}
   else Fault site.
-Definition ob_bytes (o : obuf) : list N := rev (ob_rev o).
+Definition ob_bytes (o : obuf) : list N := rev_append (ob_rev o) [].   (* = rev, linear time *)
